@@ -22,15 +22,15 @@ const settleTimeout = 8 * time.Second
 // ---- recording plugin: hook verdicts, disconnect-hook counter, session identities ----
 
 type recPlugin struct {
-	mu      sync.Mutex
-	reject  bool
-	setID   bool          // overlap mode: the accept hook sets nextID as the session id
-	nextID  string
-	hooked  []interface{} // sessions in the order their accept hooks ran
-	last    interface{} // the session seen by the last PostAccept/PostDial
-	lastID  string
-	discs   map[interface{}]int
-	starts  map[interface{}]int
+	mu     sync.Mutex
+	reject bool
+	setID  bool // overlap mode: the accept hook sets nextID as the session id
+	nextID string
+	hooked []interface{} // sessions in the order their accept hooks ran
+	last   interface{}   // the session seen by the last PostAccept/PostDial
+	lastID string
+	discs  map[interface{}]int
+	starts map[interface{}]int
 }
 
 func newRec() *recPlugin {
@@ -110,24 +110,24 @@ func classOf(st *erpc.Status) string {
 // ---- one history ----
 
 type pair struct {
-	n      int
-	p      erpc.Session // nil when the hooks refused it
-	key    interface{}  // identity of the P-side session (also for refused ones)
-	q      erpc.Session
-	qconn  net.Conn
-	pconn  net.Conn // nil for dialled sessions
-	dead   bool     // was seen unhealthy
+	n             int
+	p             erpc.Session // nil when the hooks refused it
+	key           interface{}  // identity of the P-side session (also for refused ones)
+	q             erpc.Session
+	qconn         net.Conn
+	pconn         net.Conn // nil for dialled sessions
+	dead          bool     // was seen unhealthy
 	startsAtDeath int
 }
 
 type world struct {
-	P, Q   erpc.Peer
-	rec    *recPlugin
-	qrec   *recPlugin
-	pairs  []*pair
-	idStr  map[int64]string
-	ids    []int64
-	lis    net.Listener
+	P, Q  erpc.Peer
+	rec   *recPlugin
+	qrec  *recPlugin
+	pairs []*pair
+	idStr map[int64]string
+	ids   []int64
+	lis   net.Listener
 }
 
 func newWorld() *world {
